@@ -24,12 +24,16 @@ type c01Msg struct {
 	HeaderType int      `json:"header_type"`
 	Split      string   `json:"split"`     // queue-all | last-send | (single package:) send
 	NextSize   int      `json:"next_size"` // packet size the server announces after this message (0 = unchanged)
+	// OnZero: in plans that use both channels, send this message on channel 0 instead of the logical channel.
+	OnZero bool `json:"on_zero,omitempty"`
 }
 
 type c01Plan struct {
-	Knobs   Knobs    `json:"knobs"`
-	Logical bool     `json:"logical"`
-	Msgs    []c01Msg `json:"msgs"`
+	Knobs   Knobs `json:"knobs"`
+	Logical bool  `json:"logical"`
+	// Both: the logical channel AND channel 0 are used in the same run (per message: OnZero).
+	Both bool     `json:"both,omitempty"`
+	Msgs []c01Msg `json:"msgs"`
 }
 
 type c01 struct{}
@@ -54,6 +58,9 @@ var c01Sizes = []int{256, 257, 511, 512, 513, 1024, 4096, 32768, 65535}
 
 func (c01) Gen(r *Rand, idx int, tier string) interface{} {
 	p := &c01Plan{Knobs: GenKnobs(r), Logical: r.Pct(50)}
+	if p.Logical && r.Pct(40) {
+		p.Both = true
+	}
 	ps := 512
 	n := 1 + r.Intn(4)
 	for i := 0; i < n; i++ {
@@ -73,6 +80,11 @@ func (c01) Gen(r *Rand, idx int, tier string) interface{} {
 			} else {
 				T = 1 + r.Intn(body+body/2)
 			}
+		}
+		if p.Both && r.Pct(60) && ps <= 8192 {
+			// runs that use both channels dwell on exact multiples: the empty end-of-message packet is the one
+			// packet whose header fields are not derived from a data packet
+			T = (1 + r.Intn(2)) * body
 		}
 		if T < 1 {
 			T = 1
@@ -109,6 +121,7 @@ func (c01) Gen(r *Rand, idx int, tier string) interface{} {
 			rest -= l
 		}
 		m.HeaderType = 1 + r.Intn(23)
+		m.OnZero = p.Both && r.Bool()
 		if len(m.Pkgs) == 1 && r.Pct(60) {
 			m.Split = "send"
 		} else if r.Pct(50) {
@@ -169,7 +182,7 @@ func (c01) Shrink(plan interface{}) []interface{} {
 			out = append(out, &q)
 		}
 	}
-	if p.Logical {
+	if p.Logical && !p.Both {
 		q := *p
 		q.Logical = false
 		out = append(out, &q)
@@ -273,6 +286,7 @@ func (c01) Run(plan interface{}, schedSeed uint64, replay []simrt.Choice, lenien
 			setupErr = err.Error()
 			return
 		}
+		ch0 := ch
 		if p.Logical {
 			ch, err = conn.NewChannel()
 			if err != nil {
@@ -280,12 +294,17 @@ func (c01) Run(plan interface{}, schedSeed uint64, replay []simrt.Choice, lenien
 				return
 			}
 		}
+		chL := ch
 		ctx, cancel := simrt.WithTimeout(context.Background(), time.Minute)
 		defer cancel()
 		for mi, m := range p.Msgs {
 			curMsg = mi
 			sizesSeen[mi] = conn.PacketSize()
 			marks[mi].start = simrt.Record("msg-start", "", "", int64(mi))
+			ch := chL
+			if m.OnZero {
+				ch = ch0
+			}
 			ch.CurrentHeaderType = tds.PacketHeaderType(m.HeaderType)
 			var err error
 			for pi, pk := range m.Pkgs {
@@ -388,13 +407,13 @@ func (c01) Run(plan interface{}, schedSeed uint64, replay []simrt.Choice, lenien
 				v.Violate("wrong-type", "wrong message type", "%s: packet %d has type %d", where, i, pk.H.Type)
 			}
 			wantCh := uint16(0)
-			if p.Logical {
+			if p.Logical && !m.OnZero {
 				wantCh = chanID
 			}
 			if pk.H.Channel != wantCh {
 				v.Violate("wrong-channel", "wrong channel id", "%s: packet %d carries channel %d, expected %d", where, i, pk.H.Channel, wantCh)
 			}
-			if p.Logical {
+			if p.Logical && !m.OnZero {
 				if expectNr >= 0 && int(pk.H.PacketNr) != expectNr {
 					v.Violate("packet-number", "packet numbers not consecutive", "%s: packet %d has number %d, expected %d", where, i, pk.H.PacketNr, expectNr)
 				}
@@ -418,7 +437,7 @@ func (c01) Run(plan interface{}, schedSeed uint64, replay []simrt.Choice, lenien
 		}
 		if T > body || m.NextSize != 0 {
 			mcount := T / body
-			nontrivial += fmt.Sprintf("%d/%s/m%d/%s/%v;", ps, cls, mcount, m.Split, p.Logical)
+			nontrivial += fmt.Sprintf("%d/%s/m%d/%s/%v%v;", ps, cls, mcount, m.Split, p.Logical, m.OnZero)
 		}
 		v.Probe("boundary:" + cls)
 		if m.NextSize != 0 {
